@@ -603,7 +603,8 @@ def c16_cases(tier, seed):
     base += gens.g_fixtures() + gens.g_mutations(seed, 800 if q else 8000)
     extra = ["<!DOCTYPE r><r/>", "<!DOCTYPE r []><r/>", "<?xml version='1.0'?><!DOCTYPE r><r/>", "<!--c--><!DOCTYPE r><r/>",
              "<r><!-- <!DOCTYPE x> --></r>", "<r><![CDATA[<!DOCTYPE x>]]></r>", "<r a='<!DOCTYPE'/>", "<r><?p <!DOCTYPE x>?></r>",
-             "<r>&lt;!DOCTYPE</r>", "<!DOCTYPE r SYSTEM 'x'><r/>", " <!DOCTYPE r><r/>", "<!DOCTYPE r [<!ENTITY e 'v'>]><r>&e;</r>", "<!DOCTYPE", "<!DOCTYPE>"]
+             "<r>&lt;!DOCTYPE</r>", "<!DOCTYPE r SYSTEM 'x'><r/>", " <!DOCTYPE r><r/>", "<!DOCTYPE\nr><r/>", "<!DOCTYPE\tr [<!ENTITY e 'xxxx'>]><r a='&e;&e;'>&e;&e;</r>", "<!DOCTYPE\r\nr><r/>",
+             "<!--c--> <?p?>\n<!DOCTYPE r [<!ENTITY e 'xxxxxxxx'>]><r>&e;&e;&e;</r>", "\ufeff<?xml version='1.0'?><!--c--><!DOCTYPE r><r/>", "<!DOCTYPE r [<!ENTITY e 'v'>]><r>&e;</r>", "<!DOCTYPE", "<!DOCTYPE>"]
     base += [Case(s, "", True, meta={"gen": "doctype-forms"}) for s in extra]
     cs = []
     for c in base:
@@ -611,6 +612,32 @@ def c16_cases(tier, seed):
         cs.append(Case(c.data, "ncp", False, U32MAX, meta=c.meta))
         cs.append(Case(c.data, "ncpD", False, U32MAX, meta=c.meta))      # Document::parse
     return cs
+
+
+def prolog_has_doctype(data):
+    """does the prolog (BOM, XML declaration, whitespace, comments, PIs) lead to a '<!DOCTYPE'"""
+    s = data
+    if s.startswith(b"\xef\xbb\xbf"):
+        s = s[3:]
+    if s.startswith(b"<?xml") and len(s) > 5 and s[5:6] in b" \t\r\n":
+        j = s.find(b"?>")
+        if j < 0:
+            return False
+        s = s[j + 2:]
+    while True:
+        s = s.lstrip(b" \t\r\n")
+        if s.startswith(b"<!--"):
+            j = s.find(b"-->", 4)
+            if j < 0:
+                return False
+            s = s[j + 3:]
+        elif s.startswith(b"<?"):
+            j = s.find(b"?>", 2)
+            if j < 0:
+                return False
+            s = s[j + 2:]
+        else:
+            return s.startswith(b"<!DOCTYPE")
 
 
 def c16_relation(cases, impl):
@@ -622,6 +649,8 @@ def c16_relation(cases, impl):
         is_dtd_err = rxlib.result_class(off_) == "err" and any(l.startswith("E DtdDetected") for l in off_)
         if not is_dtd_err and off_ != on:
             out.append(([i, i + 1], "allow_dtd=false gives neither DtdDetected nor the allow_dtd=true result"))
+        if prolog_has_doctype(cases[i].data) and rxlib.result_class(off_) == "ok":
+            out.append(([i + 1], "a document whose prolog reaches a DOCTYPE declaration is accepted under allow_dtd=false"))
         if b"<!DOCTYPE" not in cases[i].data and off_ != on:
             out.append(([i, i + 1], "no '<!DOCTYPE' in the input but the results differ"))
         if rxlib.result_class(off_) == "ok":
@@ -743,10 +772,10 @@ def c20_extra(tier, seed, harness_rel, harness_dbg):
     fails, info = [], []
     work = os.path.join(BUILD, "work-C20")
     os.makedirs(work, exist_ok=True)
-    cs = gens.g_cst(seed, 40 if tier == "quick" else 300, flags="ncpal", renderings=1, hoist=True) + gens.g_fixtures(flags="ncpal")
+    cs = gens.g_cst(seed, 40 if tier == "quick" else 300, flags="ncpalt", renderings=2, hoist=True) + gens.g_fixtures(flags="ncpalt")
     path = os.path.join(work, "threads.cases")
     rxlib.write_cases(cs, path)
-    p = subprocess.run([harness_rel, "threads", path, "16", "6" if tier == "quick" else "30"], stdout=subprocess.PIPE, stderr=subprocess.DEVNULL, env=rxlib.ENV)
+    p = subprocess.run([harness_rel, "threads", path, "16", "8" if tier == "quick" else "40"], stdout=subprocess.PIPE, stderr=subprocess.DEVNULL, env=rxlib.ENV)
     out = p.stdout.decode()
     same = diff = 0
     for l in out.splitlines():
@@ -759,6 +788,13 @@ def c20_extra(tier, seed, harness_rel, harness_dbg):
     if p.returncode != 0:
         fails.append({"why": "threads mode exited with %d" % p.returncode})
     info.append({"thread_dumps_equal": same, "thread_dumps_different": diff})
+    # auto traits, decided by rustc: a separate binary whose compilation is the obligation
+    env2 = dict(rxlib.ENV)
+    rc, o = rxlib.run(["cargo", "run", "--offline", "--release", "--bin", "autotraits", "--target-dir", os.path.join(rxlib.HARNESS, "target")], cwd=rxlib.HARNESS, env=env2)
+    info.append({"autotraits_binary": "ok" if rc == 0 else "failed to build / run"})
+    if rc != 0:
+        errs = [l for l in o.splitlines() if "error" in l or "cannot be" in l or "Send" in l or "Sync" in l][:12]
+        fails.append({"why": "a public type is no longer Send + Sync (or an iterator can no longer be moved to another thread): " + " | ".join(errs)[:900]})
     # the unsafe ban, decided by rustc: build the library with -F unsafe_code
     env = dict(rxlib.ENV)
     rc, o = rxlib.run(["cargo", "rustc", "--offline", "--lib", "--target-dir", os.path.join(BUILD, "unsafe-check"), "--", "-F", "unsafe_code"], cwd=rxlib.REPO, env=env)
@@ -779,14 +815,20 @@ def c20_extra(tier, seed, harness_rel, harness_dbg):
 FEATURE_SETS = {"default": None, "none": [], "std": ["std"], "positions": ["positions"]}
 
 
+def c19_corpus(tier, seed):
+    q = tier == "quick"
+    return gens.g_cst(seed, 300 if q else 3000, flags="nc", renderings=2, hoist=True) + gens.g_fixtures(flags="nc", benches=not q) + \
+        gens.g_tokens(2, flags="nc") + gens.g_mutations(seed, 500 if q else 5000, flags="nc") + gens.g_meta(2, flags="nc") + \
+        gens.g_ent_random(seed, 200 if q else 2000, flags="nc") + gens.g_long(flags="nc", counts=[2, 17, 33])
+
+
 def c19_extra(tier, seed, harness_rel, harness_dbg):
     """feature sets x repeated, interleaved parses; dumps minus P must be identical"""
     fails, info = [], []
     work = os.path.join(BUILD, "work-C19")
     os.makedirs(work, exist_ok=True)
-    q = tier == "quick"
-    cs = gens.g_cst(seed, 300 if q else 3000, flags="nc", renderings=1, hoist=True) + gens.g_fixtures(flags="nc", benches=not q) + \
-        gens.g_tokens(2, flags="nc") + gens.g_mutations(seed, 500 if q else 5000, flags="nc") + gens.g_meta(2, flags="nc")
+    cs = c19_corpus(tier, seed)
+    # a failing parse in between must not influence the next one: interleave rejected inputs
     # repeated and interleaved: the list is run as  cs ++ reverse(cs) ++ cs  in one process
     seq = cs + list(reversed(cs)) + cs
     ref = None
@@ -823,7 +865,7 @@ def defprop(*a, **k):
     PROPS[p.pid] = p
 
 
-defprop("C01", "other", {"R"}, c01_cases, oracle=oracles.o_total, extra=c01_extra,
+defprop("C01", "proof", {"R"}, c01_cases, oracle=oracles.o_total, extra=c01_extra,
         nontrivial=lambda c, l: len(c.data) >= 3,
         rule="exhaustive meta-alphabet strings (+ embedded in content / attribute), token strings, every prefix of the fixtures, seeded mutations, entity graphs, random documents, option sweep; non-trivial = input of >= 3 bytes; distinct by (input, options)",
         technique="Coq model + theorems (no-panic/termination lemmas) + model/impl correspondence + isolated scale runs")
@@ -877,13 +919,13 @@ defprop("C15", "proof", {"R", "N", "E"}, c15_cases, oracle=None, relation=c15_re
 defprop("C16", "proof", {"R", "E", "N", "Q", "A", "S", "K", "C", "X", "P", "PA"}, c16_cases, oracle=None, relation=c16_relation,
         rule="inputs x {allow_dtd true, false, Document::parse}; DOCTYPE forms at every prolog position and DOCTYPE-like text inside comments/CDATA/PIs/values",
         technique="Coq proof of the option relation + correspondence")
-defprop("C17", "proof", {"R", "OG", "OC", "OS", "OH"}, lambda t, s: api_docs(t, s, "no"), oracle=oracles.o_identity,
+defprop("C17", "proof", {"R", "OG", "OC", "OS", "OH", "OI"}, lambda t, s: api_docs(t, s, "no"), oracle=oracles.o_identity,
         rule="two simultaneously live parses of each document: get_node for 0..n+2 and u32::MAX-1, eq/cmp/partial_cmp matrix over 12 nodes, sort of all nodes, HashSet",
         technique="Coq proof of the order axioms on (document, id) keys + correspondence")
 defprop("C18", "other", {"R", "B"}, c18_cases, oracle=oracles.o_borrowed,
         rule="random documents with and without decoding-forcing constructs, entity-expanded nodes, fast-path families",
         technique="Coq model where a borrowed string is an offset pair + bounds lemmas + correspondence")
-defprop("C19", "other", {"R", "E", "N", "Q", "A", "S", "K", "C", "X"}, lambda t, s: [], oracle=None, extra=c19_extra,
+defprop("C19", "other", {"R", "E", "N", "Q", "A", "S", "K", "C", "X"}, c19_corpus, oracle=None, extra=c19_extra,
         rule="shared corpus parsed three times (forward, reversed, forward) in one process under four feature sets",
         technique="correspondence across feature builds (translation validation); model is a function by construction")
 defprop("C20", "other", None, lambda t, s: [], oracle=None, extra=c20_extra, model_side=False,
